@@ -11,6 +11,8 @@ HOSTILE_TEXT = [
     "2020-01-01 12:30:00", "- x", "a: b", "#c", "x #y", "{a: 1}", "[1, 2]", "!!str x", "*a", "&a b", "|", ">",
     "%", "@", "`", "123", "1.5", "-0", "+1", ".5", "1.", "NaN", "inf", "(1;2)", "a;b", "", "0",
     "a\\b", "\\n", "\"", "','", "a,\"b\",c", "x\ny,z",
+    # text that is not in a unicode normal form / has compatibility characters: kept verbatim
+    u"cafe\u0301", u"\u2126", u"\u212b ngstr\u006f\u0308m", u"\u212a", u"\ufb01", u"\u1e9e", u"\u0130", u"e\u0301\u0323",
 ]
 PLAIN_TEXT = ["alpha", "beta", "gamma delta", "Recording", "stim-1", "v_2", "A", "b c d", "Zed"]
 XML_UNREPRESENTABLE = ["a\x00b", "x\x0bz", "\x1f", "￾"]
